@@ -30,6 +30,14 @@ structure St where
   line : Nat := 0
   depth : Nat := 0
   cov : List Tag := []
+  /-- `InterpreterBase.subdir`: the directory of the build file being evaluated, relative to the source root -/
+  subdir : Str := []
+  /-- `processed_buildfiles` of this interpreter (directories whose build file was entered) -/
+  visited : List Str := []
+  /-- `subproject_stack` -/
+  spStack : List Str := []
+  /-- `Interpreter.subprojects` (shared by all interpreters of one configuration) -/
+  spCache : List (Str × Val) := []
   deriving Repr, Inhabited
 
 inductive Res (α : Type) where
@@ -37,6 +45,8 @@ inductive Res (α : Type) where
   | err (e : ErrK) (s : St)
   /-- `BreakRequest` (`true`) / `ContinueRequest` (`false`) propagating to the enclosing `foreach` -/
   | sig (brk : Bool) (s : St)
+  /-- `SubdirDoneRequest` propagating to the enclosing build file -/
+  | done (s : St)
   deriving Repr, Inhabited
 
 abbrev EvalM (α : Type) := St → Res α
@@ -48,6 +58,7 @@ abbrev EvalM (α : Type) := St → Res α
   | .ok a s' => f a s'
   | .err e s' => .err e s'
   | .sig b s' => .sig b s'
+  | .done s' => .done s'
 
 instance : Monad EvalM where
   pure := EvalM.pure
@@ -55,6 +66,7 @@ instance : Monad EvalM where
 
 def fail {α} (e : ErrK) : EvalM α := fun s => .err e s
 def signal {α} (brk : Bool) : EvalM α := fun s => .sig brk s
+def subdirDone {α} : EvalM α := fun s => .done s
 def setLine (n : Nat) : EvalM Unit := fun s => .ok () { s with line := n }
 def tag (t : Tag) : EvalM Unit := fun s => .ok () { s with cov := t :: s.cov }
 def getSt : EvalM St := fun s => .ok s s
@@ -155,8 +167,10 @@ def forLoop (body : EvalM Unit) (vars : List Str) : List (List Val) → EvalM Un
       | .sig true s2 => .ok () { s2 with cov := .note cs!"foreach:break" :: s2.cov }
       | .sig false s2 => forLoop body vars rest { s2 with cov := .note cs!"foreach:continue" :: s2.cov }
       | .err e s2 => .err e s2
+      | .done s2 => .done s2          -- `subdir_done()` is not caught by a loop
     | .err e s1 => .err e s1
     | .sig b s1 => .sig b s1
+    | .done s1 => .done s1
 
 /-! ### the functions of the core language -/
 
@@ -241,14 +255,110 @@ def callFunc (fn : Str) (raw : List Val) (kw : List (Str × Val)) : EvalM (Optio
       | .bool true :: _ => pure none
       | .bool false :: _ => fail .interpreterException
       | _ => fail .unsupported
+  else if fn = cs!"subdir_done" then
+    if !(flattenL raw).isEmpty then fail .invalidArguments
+    else if !kw.isEmpty then fail .invalidArguments
+    else subdirDone
   else fail .unsupported
+
+/-! ### `subdir()` and `subproject()` over a file table
+
+The build files of the source tree are a parameter: `Files` maps a directory (relative to the source
+root, `/`-separated) to the parsed block of its `meson.build`.  Entering a file is not structural
+recursion on the calling tree, so the evaluator takes the two entry points as `Hooks`; `hooksAt`
+ties the knot with explicit fuel (every entry consumes one unit; nesting is bounded by the number
+of files because a directory is entered at most once per interpreter and subprojects may not recurse). -/
+
+abbrev Files := List (Str × List Node)
+
+def fileOf (files : Files) (dir : Str) : Option (List Node) :=
+  match files.find? (fun e => e.1 = dir) with
+  | some e => some e.2
+  | none => none
+
+structure Hooks where
+  /-- `func_subdir` once the argument is known to be a string -/
+  subdir : Str → EvalM (Option Val)
+  /-- `func_subproject` / `do_subproject` for a plain name without keyword arguments -/
+  subproject : Str → EvalM (Option Val)
+
+/-- only plain relative paths `seg/seg/…` with segments of `[A-Za-z0-9_-]` or dots are inside the model
+(anything `os.path.realpath` would normalise is not) -/
+def plainPath (p : Str) : Bool :=
+  let segs := splitOn p ['/']
+  segs.all (fun g => !g.isEmpty && g != ['.'] && g != ['.', '.'] &&
+    g.all (fun c => MesonModel.Py.isAlnum c || c == '_' || c == '-' || c == '.'))
+
+def joinPath (a b : Str) : Str := if a.isEmpty then b else a ++ ['/'] ++ b
+
+/-- `finally: self.subdir = prev_subdir` and `except SubdirDoneRequest: pass` of `_evaluate_codeblock` -/
+def leaveSubdir {α} (prev : Str) (r : Res α) (dflt : α) : Res α :=
+  match r with
+  | .ok a s => .ok a { s with subdir := prev }
+  | .err e s => .err e { s with subdir := prev }
+  | .sig b s => .sig b { s with subdir := prev }
+  | .done s => .ok dflt { s with subdir := prev }
+
+/-- `func_subdir` + `_evaluate_subdir`: the file's block runs in the SAME state (variables included) -/
+def enterSubdir (run : List Node → EvalM Unit) (files : Files) (arg : Str) : EvalM (Option Val) := fun s =>
+  if hasSub ['.', '.'] arg then .err .invalidArguments s
+  else if s.subdir.isEmpty && arg = cs!"subprojects" then .err .invalidArguments s
+  else if s.subdir.isEmpty && cs!"meson-".isPrefixOf arg then .err .invalidArguments s
+  else if arg.isEmpty then .err .invalidArguments s
+  else if arg.head? = some '/' then .err .invalidArguments s
+  else if !plainPath arg then .err .unsupported s
+  else
+    let dir := joinPath s.subdir arg
+    if s.visited.contains dir then .err .invalidArguments s
+    else
+      let s1 := { s with visited := dir :: s.visited }
+      match fileOf files dir with
+      | none => .err .interpreterException s1
+      | some block =>
+        match leaveSubdir s.subdir (run block { s1 with subdir := dir }) () with
+        | .ok _ s2 => .ok none s2
+        | .err e s2 => .err e s2
+        | .sig b s2 => .sig b s2
+        | .done s2 => .done s2
+
+/-- the state a sub-interpreter starts from: nothing of the parent's variable table, its own
+directory bookkeeping; the log, the subproject cache and the coverage tags are shared -/
+def childState (s : St) (name : Str) : St :=
+  { vars := [], out := s.out, line := s.line, depth := 0, cov := s.cov,
+    subdir := joinPath cs!"subprojects" name, visited := [], spStack := s.spStack ++ [name],
+    spCache := s.spCache }
+
+/-- back in the parent: only the log, the cache and the tags come back, plus the returned object -/
+def afterChild (s c : St) : St := { s with out := c.out, cov := c.cov, spCache := c.spCache }
+
+/-- `do_subproject` → `_do_subproject_meson` → `subi.run()` -/
+def enterSubproject (run : List Node → EvalM Unit) (files : Files) (name : Str) : EvalM (Option Val) := fun s =>
+  if name.isEmpty then .err .interpreterException s
+  else if name.head? = some '.' then .err .interpreterException s
+  else if hasSub ['.', '.'] name then .err .interpreterException s
+  else if name.head? = some '/' then .err .interpreterException s
+  else if !plainPath name || name.contains '/' then .err .unsupported s
+  else if s.spStack.contains name then .err .invalidCode s
+  else match lookup name s.spCache with
+    | some obj => .ok (some obj) s
+    | none =>
+      match fileOf files (joinPath cs!"subprojects" name) with
+      | none => .err .unsupported s              -- wrap resolution / download is not modelled
+      | some block =>
+        match run block (childState s name) with
+        | .ok _ c | .done c =>
+          let obj := Val.subproj name c.vars
+          let s' := afterChild s c
+          .ok (some obj) { s' with spCache := insert name obj s'.spCache }
+        | .err e c => .err e { afterChild s c with line := c.line }
+        | .sig b c => .sig b (afterChild s c)
 
 def modelledFuncs : List Str :=
   [cs!"message", cs!"set_variable", cs!"get_variable", cs!"is_variable", cs!"unset_variable", cs!"range",
-   cs!"assert"]
+   cs!"assert", cs!"subdir_done", cs!"subdir", cs!"subproject"]
 
 /-- `function_call` after `reduce_arguments` -/
-def applyFunc (ln : Nat) (fn : Str) (pos : List Val) (kw : List (Str × Val)) : EvalM (Option Val) := do
+def applyFunc (h : Hooks) (ln : Nat) (fn : Str) (pos : List Val) (kw : List (Str × Val)) : EvalM (Option Val) := do
   if !isFunc fn then
     tag (.note cs!"call:unknown-function")
     fail .invalidCode
@@ -256,7 +366,21 @@ def applyFunc (ln : Nat) (fn : Str) (pos : List Val) (kw : List (Str × Val)) : 
   else
     setLine ln
     tag (.func fn)
-    callFunc fn pos kw
+    if fn = cs!"subdir" then
+      if !kw.isEmpty then fail .unsupported            -- `if_found:` needs dependency objects
+      else do
+        posTypes [.str] [] (flattenL pos)
+        match flattenL pos with
+        | [.str d] => h.subdir d
+        | _ => fail .unsupported
+    else if fn = cs!"subproject" then
+      if !kw.isEmpty then fail .unsupported            -- required: / default_options: / version:
+      else do
+        posTypes [.str] [] (flattenL pos)
+        match flattenL pos with
+        | [.str n] => h.subproject n
+        | _ => fail .unsupported
+    else callFunc fn pos kw
 
 /-- `method_call` after the object and the arguments have been evaluated -/
 def applyMethod (ln : Nat) (obj : Option Val) (name : Str) (pos : List Val) (kw : List (Str × Val)) :
@@ -280,7 +404,7 @@ def truth (v : Val) : EvalM Bool := do
 mutual
 
 /-- `evaluate_statement` -/
-def eval : Node → EvalM (Option Val)
+def eval (h : Hooks) : Node → EvalM (Option Val)
   | .str ln v => do setLine ln; pure (some (.str v))
   | .fstr ln v => do setLine ln; let r ← fstring v; pure (some (.str r))
   | .bool ln b => do setLine ln; pure (some (.bool b))
@@ -288,56 +412,56 @@ def eval : Node → EvalM (Option Val)
   | .id ln name => do setLine ln; let v ← getVar name; pure (some v)
   | .arr ln pos kw oe => do
     setLine ln
-    let (vs, kws) ← reduceArgsWith (evalList pos) (evalKw false kw []) oe
+    let (vs, kws) ← reduceArgsWith (evalList h pos) (evalKw h false kw []) oe
     if !kws.isEmpty then fail .invalidCode
     else do let v ← noRange (.arr vs); pure (some v)
   | .dict ln kw => do
     setLine ln
-    let (_, kws) ← reduceArgsWith (pure []) (evalKw true kw []) false false
+    let (_, kws) ← reduceArgsWith (pure []) (evalKw h true kw []) false false
     let v ← noRange (.dict kws)
     pure (some v)
   | .and_ ln l r => do
     setLine ln
-    let lv ← eval l
+    let lv ← eval h l
     match lv with
     | none => fail .mesonException
     | some lv =>
       let lb ← truth lv
       if !lb then do tag (.note cs!"and:short-circuit"); pure (some (.bool false))
       else
-        let rv ← eval r
+        let rv ← eval h r
         match rv with
         | none => fail .mesonException
         | some rv => do let rb ← truth rv; pure (some (.bool rb))
   | .or_ ln l r => do
     setLine ln
-    let lv ← eval l
+    let lv ← eval h l
     match lv with
     | none => fail .mesonException
     | some lv =>
       let lb ← truth lv
       if lb then do tag (.note cs!"or:short-circuit"); pure (some (.bool true))
       else
-        let rv ← eval r
+        let rv ← eval h r
         match rv with
         | none => fail .mesonException
         | some rv => do let rb ← truth rv; pure (some (.bool rb))
   | .not_ ln v => do
     setLine ln
-    let x ← eval v
+    let x ← eval h v
     match x with
     | none => fail .invalidCode
     | some x => do let r ← liftE (.unary .not_ x.ty) (operatorCall x .not_ none); pure (some r)
   | .uminus ln v => do
     setLine ln
-    let x ← eval v
+    let x ← eval h v
     match x with
     | none => fail .invalidCode
     | some x => do let r ← liftE (.unary .uminus x.ty) (operatorCall x .uminus none); pure (some r)
   | .arith ln op l r => do
     setLine ln
-    let lv ← eval l
-    let rv ← eval r
+    let lv ← eval h l
+    let rv ← eval h r
     match lv, rv with
     | some a, some b => do
       let res ← liftE (.bin a.ty (arithOp op) b.ty false) (operatorCall a (arithOp op) (some b))
@@ -345,11 +469,11 @@ def eval : Node → EvalM (Option Val)
     | _, _ => fail .invalidCode
   | .cmp ln op l r => do
     setLine ln
-    let lv ← eval l
+    let lv ← eval h l
     match lv with
     | none => fail .mesonException
     | some a =>
-      let rv ← eval r
+      let rv ← eval h r
       match rv with
       | none => fail .mesonException
       | some b =>
@@ -359,11 +483,11 @@ def eval : Node → EvalM (Option Val)
         pure (some res)
   | .index ln obj idx => do
     setLine ln
-    let o ← eval obj
+    let o ← eval h obj
     match o with
     | none => fail .interpreterException
     | some o =>
-      let i ← eval idx
+      let i ← eval h idx
       match i with
       | none => fail .invalidArguments
       | some i => do
@@ -371,25 +495,25 @@ def eval : Node → EvalM (Option Val)
         pure (some res)
   | .tern ln c t f => do
     setLine ln
-    let cv ← eval c
+    let cv ← eval h c
     match cv with
     | none => fail .mesonException
     | some cv =>
       let b ← truth cv
-      if b then eval t else eval f
-  | .paren ln inner => do setLine ln; eval inner
+      if b then eval h t else eval h f
+  | .paren ln inner => do setLine ln; eval h inner
   | .assign ln name v => do
     setLine ln
     let s ← getSt
     if s.depth ≠ 0 then fail .invalidArguments
     else
-      let x ← eval v
+      let x ← eval h v
       match x with
       | none => fail .invalidCode
       | some x => do setVar name x; pure none
   | .plusassign ln name v => do
     setLine ln
-    let x ← eval v
+    let x ← eval h v
     match x with
     | none => fail .invalidCode
     | some add =>
@@ -399,26 +523,26 @@ def eval : Node → EvalM (Option Val)
       pure none
   | .call ln fn pos kw oe => do
     setLine ln
-    let (vs, kws) ← reduceArgsWith (evalList pos) (evalKw false kw []) oe
-    applyFunc ln fn vs kws
+    let (vs, kws) ← reduceArgsWith (evalList h pos) (evalKw h false kw []) oe
+    applyFunc h ln fn vs kws
   | .method ln obj name pos kw oe => do
     setLine ln
     let o ← (match obj with
              | .id _ nm => do let v ← getVar nm; pure (some v)
-             | _ => eval obj)
-    let (vs, kws) ← reduceArgsWith (evalList pos) (evalKw false kw []) oe
+             | _ => eval h obj)
+    let (vs, kws) ← reduceArgsWith (evalList h pos) (evalKw h false kw []) oe
     applyMethod ln o name vs kws
   | .ifc ln ifs hasElse els => do
     setLine ln
-    let taken ← evalIfs ifs
+    let taken ← evalIfs h ifs
     if taken then pure none
-    else if hasElse then do tag (.note cs!"if:else"); execBlock els; pure none
+    else if hasElse then do tag (.note cs!"if:else"); execBlock h els; pure none
     else pure none
   | .foreach ln vars items block => do
     setLine ln
-    let it ← eval items
+    let it ← eval h items
     let tuples ← liftE (.foreach (it.map Val.ty)) (iterItems it vars.length)
-    forLoop (execBlock block) vars tuples
+    forLoop (execBlock h block) vars tuples
     pure none
   | .cont ln => do setLine ln; signal false
   | .brk ln => do setLine ln; signal true
@@ -426,55 +550,67 @@ def eval : Node → EvalM (Option Val)
 termination_by structural n => n
 
 /-- positional arguments, left to right -/
-def evalList : List Node → EvalM (List (Option Val))
+def evalList (h : Hooks) : List Node → EvalM (List (Option Val))
   | [] => pure []
-  | n :: r => do let v ← eval n; let vs ← evalList r; pure (v :: vs)
+  | n :: r => do let v ← eval h n; let vs ← evalList h r; pure (v :: vs)
 termination_by structural l => l
 
 /-- keyword arguments / dictionary entries in source order; `dictMode` = `resolve_key` of
 `evaluate_dictstatement` (keys are evaluated, duplicates are errors) -/
-def evalKw (dictMode : Bool) : List (Node × Node) → List (Str × Val) → EvalM (List (Str × Val))
+def evalKw (h : Hooks) (dictMode : Bool) : List (Node × Node) → List (Str × Val) → EvalM (List (Str × Val))
   | [], acc => pure acc
   | (k, v) :: r, acc => do
     let key ← (if dictMode then do
-                 let kv ← eval k
+                 let kv ← eval h k
                  match kv with
                  | some (.str s) => pure s
                  | _ => fail .invalidArguments
                else match k with
                  | .id _ nm => pure nm
                  | _ => fail .interpreterException)
-    let val ← eval v
+    let val ← eval h v
     match val with
     | none => fail .invalidArguments
     | some x =>
       setLine k.line
       if dictMode && hasKey key acc then fail .invalidArguments
-      else evalKw dictMode r (insert key x acc)
+      else evalKw h dictMode r (insert key x acc)
 termination_by structural l => l
 
 /-- `evaluate_codeblock` -/
-def execBlock : List Node → EvalM Unit
+def execBlock (h : Hooks) : List Node → EvalM Unit
   | [] => pure ()
-  | n :: r => do let _ ← eval n; execBlock r
+  | n :: r => do let _ ← eval h n; execBlock h r
 termination_by structural l => l
 
 /-- the `if`/`elif` arms of `evaluate_if`; answers whether an arm was taken -/
-def evalIfs : List (Node × List Node) → EvalM Bool
+def evalIfs (h : Hooks) : List (Node × List Node) → EvalM Bool
   | [] => pure false
   | (c, blk) :: r => do
-    let cv ← eval c
+    let cv ← eval h c
     match cv with
     | none => fail .invalidCode
     | some cv =>
       let b ← truth cv
-      if b then do tag (.note cs!"if:taken"); execBlock blk; pure true
-      else evalIfs r
+      if b then do tag (.note cs!"if:taken"); execBlock h blk; pure true
+      else evalIfs h r
 termination_by structural l => l
 
 end
 
-/-- a whole build definition on a fresh variable table -/
-def runProgram (prog : List Node) : Res Unit := execBlock prog {}
+/-- the entry points for a given source tree; `fuel` bounds the nesting of build files -/
+def hooksAt (files : Files) : Nat → Hooks
+  | 0 => { subdir := fun _ => fail .unsupported, subproject := fun _ => fail .unsupported }
+  | n + 1 => { subdir := enterSubdir (execBlock (hooksAt files n)) files,
+               subproject := enterSubproject (execBlock (hooksAt files n)) files }
+
+def hooksFor (files : Files) : Hooks := hooksAt files (2 * files.length + 2)
+
+/-- a whole build definition (top-level `meson.build` after `project()`) on a fresh variable table,
+in a source tree with the given other build files -/
+def runProgramIn (files : Files) (prog : List Node) : Res Unit := execBlock (hooksFor files) prog {}
+
+/-- a single-file build definition -/
+def runProgram (prog : List Node) : Res Unit := runProgramIn [] prog
 
 end MesonModel.Eval
